@@ -29,7 +29,7 @@ static Pair gen_pair(ByteSource& in, CaseInfo& ci, size_t cap = 0) {
   if (!cap) cap = cap_limbs(in.scale);
   Pair p; p.g_known = true;
   size_t n = size_near(in, 1, cap, {HGCD_THRESHOLD, HGCD_APPR_THRESHOLD, GCDEXT_DC_THRESHOLD, GCD_DC_THRESHOLD, 2, 3, 2 * HGCD_THRESHOLD});
-  unsigned k = in.pick({6, 4, 2, 2, 2, 1, 1});
+  unsigned k = in.pick({6, 4, 2, 2, 2, 1, 1, 2});
   Int g(1);
   { unsigned gk = in.pick({4, 2, 2, 2}); if (gk == 1) g = ref::pow2(in.range(0, 64 * std::min<size_t>(n, 8))); else if (gk == 2) { Limbs v = limbs_nz(in, (size_t)in.logrange(1, std::max<size_t>(1, n / 2))); g = Int::from_limbs(v.data(), v.size()); ci.label("planted_big_g"); } else if (gk == 3) g = Int::from_u64(in.range(1, 1000)); }
   switch (k) {
@@ -41,6 +41,9 @@ static Pair gen_pair(ByteSource& in, CaseInfo& ci, size_t cap = 0) {
     case 3: { Limbs u = limbs_nz(in, (size_t)in.logrange(1, n)); Int d = Int::from_limbs(u.data(), u.size()); Int m = gen_int(in, std::max<size_t>(1, n / 2), false); if (m.is_zero()) m = Int(3); p.b = d; p.a = d * m; p.g = d; ci.label("b_divides_a"); if (in.flag()) std::swap(p.a, p.b); break; }
     case 4: { Limbs u = limbs_nz(in, (size_t)in.logrange(1, n)); Int d = Int::from_limbs(u.data(), u.size()); Int m = gen_int(in, std::max<size_t>(1, n / 2), false); m = m + m + Int(1); p.b = d + d; p.a = d * m; p.g = d; ci.label("b_eq_2g"); if (in.flag()) std::swap(p.a, p.b); break; }   // |b| = 2g, a odd multiple of g
     case 5: { Limbs u = limbs(in, n); p.a = Int::from_limbs(u.data(), n); p.b = Int(0); p.g = p.a; ci.label("one_zero"); if (in.flag()) std::swap(p.a, p.b); if (in.chance(40)) { p.a = Int(0); p.b = Int(0); p.g = Int(0); } break; }
+    case 7: { // congruent modulo B^j: equal low limbs, so that subtraction steps leave whole zero limbs
+      Limbs u = limbs_nz(in, n); p.a = Int::from_limbs(u.data(), n); size_t j = in.flag() ? 1 : (size_t)in.range(1, n); Int c = in.flag() ? Int::from_u64(in.range(1, 40)) : gen_int(in, std::max<size_t>(1, n - j + 1), false); if (c.is_zero()) c = Int(2);
+      p.b = p.a + ref::shl(c, 64 * j); if (std::max(p.a.size(), p.b.size()) <= 260) p.g = ref::gcd(p.a, p.b); else p.g_known = false; if (in.flag()) std::swap(p.a, p.b); ci.label("equal_low_limbs"); break; }
     default: { // neighbours: a, a+-small
       Limbs u = limbs_nz(in, n); p.a = Int::from_limbs(u.data(), n); p.b = p.a + Int((long long)in.srange(-3, 3)); if (p.b.neg) p.b = -p.b; p.g = ref::gcd(p.a - p.b, p.b); ci.label("neighbours"); break; }
   }
@@ -162,7 +165,7 @@ static void case_kron(ByteSource& in, CaseInfo& ci) {
     if (k == 4) { uint64_t tz = in.range(0, 200); x = ref::shl(x, tz); }   // 2-adic valuation crossing limbs
     if (!allow_even && !x.is_odd()) x = x + Int(1); return x; };
   Z a, b; int got, e; Int A, B;
-  if (f == 0) { A = gz(true); B = gz(true); unsigned k = in.pick({5, 2}); if (k == 1) { Pair p = gen_pair(in, ci, std::min<size_t>(cap, 500)); A = in.flag() ? -p.a : p.a; B = in.flag() ? -p.b : p.b; }   // shared factors => symbol 0
+  if (f == 0) { A = gz(true); B = gz(true); unsigned k = in.pick({5, 3}); if (k == 1) { Pair p = gen_pair(in, ci, in.flag() ? 3 : std::min<size_t>(cap, 500)); A = in.flag() ? -p.a : p.a; B = in.flag() ? -p.b : p.b; }   // shared factors => symbol 0
     mpz_from_int(a, A); mpz_from_int(b, B); got = mpz_jacobi(a, b); }   // mpz_jacobi is also mpz_kronecker (alias): all b
   else if (f == 1) { uint64_t p; if (!small_prime(p, in)) p = 3; B = Int::from_u64(p); A = gz(true); if (in.flag()) A = A * A; mpz_from_int(a, A); mpz_from_int(b, B); got = mpz_legendre(a, b); }
   else if (f == 2) { A = gz(true); int64_t v = in.flag() ? (int64_t)in.u64() : in.srange(-20, 20); if (in.chance(30)) v = in.flag() ? INT64_MIN : INT64_MAX; B = Int((long long)v); mpz_from_int(a, A); got = mpz_kronecker_si(a, v); }
@@ -176,8 +179,24 @@ static void case_kron(ByteSource& in, CaseInfo& ci) {
 }
 
 // ---- exhaustive sweep: every (a,b) in [-64,64]^2 ------------------------------------------------------------------
-static uint64_t sweep_count() { return 129ull * 129ull; }
+// second sweep domain: all pairs of two-limb values whose limbs come from a 12-value palette (equal / zero / all-ones / boundary limbs in every position)
+static const uint64_t SWP[12] = {0, 1, 2, 3, 5, 7, 0x8000000000000000ull, 0x8000000000000001ull, 0xffffffffffffffffull, 0xfffffffffffffffdull, 0x100000000ull, 0xaaaaaaaaaaaaaaabull};
+static void sweep_palette(uint64_t i, CaseInfo& ci) {
+  uint64_t l[4]; for (int k = 0; k < 4; k++) { l[k] = SWP[i % 12]; i /= 12; }
+  uint64_t al[2] = {l[0], l[1]}, bl[2] = {l[2], l[3]}; Int A0 = Int::from_limbs(al, 2), B0 = Int::from_limbs(bl, 2);
+  ci.d("palette pair a=%s b=%s", show(A0).c_str(), show(B0).c_str());
+  Int G = ref::gcd(A0, B0);
+  for (int sg = 0; sg < 4; sg++) {
+    Int A = (sg & 1) ? -A0 : A0, B = (sg & 2) ? -B0 : B0; Z a, b, g, s, t; mpz_from_int(a, A); mpz_from_int(b, B);
+    int e = ref::kronecker(A, B); int got = mpz_jacobi(a, b); REQUIRE(got == e, "mpz_jacobi(%s, %s) = %d, expected %d", show(A).c_str(), show(B).c_str(), got, e);
+    if (sg == 0 || sg == 3) { mpz_gcd(g, a, b); REQUIRE(int_from_mpz(g) == G, "mpz_gcd(%s, %s): wrong", show(A).c_str(), show(B).c_str());
+      mpz_gcdext(g, s, t, a, b); certify("mpz_gcdext", A, B, int_from_mpz(g), int_from_mpz(s), int_from_mpz(t)); REQUIRE(int_from_mpz(g) == G, "mpz_gcdext(%s, %s): gcd", show(A).c_str(), show(B).c_str()); check_cofactor_rules(A, B, G, int_from_mpz(s), int_from_mpz(t), ci); }
+    if (B0.size() > 1 || (B0.size() == 1 && B0.m[0] > 1)) { int rc = mpz_invert(g, a, b); bool ex = G == Int(1); REQUIRE((rc != 0) == ex, "mpz_invert(%s, %s): existence", show(A).c_str(), show(B).c_str()); if (ex) { Int R = int_from_mpz(g); REQUIRE(!R.neg && ref::cmpabs(R, B) < 0 && ref::emod(A * R, B) == Int(1), "mpz_invert(%s, %s): value", show(A).c_str(), show(B).c_str()); } }
+  }
+}
+static uint64_t sweep_count() { return 129ull * 129ull + 12ull * 12 * 12 * 12; }
 static void sweep_item(uint64_t i, CaseInfo& ci) {
+  if (i >= 129ull * 129ull) { sweep_palette(i - 129ull * 129ull, ci); return; }
   long av = (long)(i / 129) - 64, bv = (long)(i % 129) - 64; ci.d("a=%ld b=%ld", av, bv); Int A((long long)av), B((long long)bv); Int G = ref::gcd(A, B);
   Z a, b, g, s, t; mpz_set_si(a, av); mpz_set_si(b, bv);
   mpz_gcd(g, a, b); REQUIRE(int_from_mpz(g) == G, "mpz_gcd(%ld,%ld)", av, bv);
@@ -191,12 +210,28 @@ static void sweep_item(uint64_t i, CaseInfo& ci) {
   if (bv > 2 && (bv & 1) && ref::is_prime_u64((uint64_t)bv)) REQUIRE(mpz_legendre(a, b) == e, "mpz_legendre(%ld,%ld)", av, bv);
   if (av != 0 && bv > 0) { unsigned long r = mpn_gcd_1((const mp_limb_t[]){(mp_limb_t)std::labs(av)}, 1, (mp_limb_t)bv); REQUIRE(Int::from_u64(r) == G, "mpn_gcd_1(%ld,%ld)", av, bv); }
 }
+// rare class: operands of 13800..30000 limbs (above HGCD_REDUCE_THRESHOLD for the hgcd calls of gcd and gcdext), random or with a long
+// run of all-ones limbs in the upper half of the smaller operand, both multiples of a planted G; gcd certified by gcdext's cofactors
+static void case_huge(ByteSource& in, CaseInfo& ci) {
+  size_t n = (size_t)in.range(13800, in.scale >= 120 ? 60000 : 30000); unsigned st = in.pick({2, 5, 1});   // random; run of ones in b; runs-style operands
+  Limbs al = limbs_nz(in, n, st == 2 ? S_RUNS : S_UNIFORM), bl = limbs_nz(in, n, st == 2 ? S_RUNS : S_UNIFORM);
+  al[n - 1] |= 1ull << 63; bl[n - 1] &= ~(1ull << 63); if (bl[n - 1] == 0) bl[n - 1] = 1;   // a > b, same limb count
+  if (st == 1) { size_t s0 = n / 2 + (size_t)in.range(0, n / 3), e0 = in.flag() ? n - 1 - (size_t)in.range(0, n / 8) : s0 + (size_t)in.range(0, n - 1 - s0); for (size_t i = s0; i < e0 && i < n - 1; i++) bl[i] = ~0ull; ci.d("ones[%zu,%zu) ", s0, e0); }
+  Int G = Int::from_limbs(limbs_nz(in, (size_t)in.range(1, 12)).data(), 1); { Limbs gl = limbs_nz(in, (size_t)in.range(1, 12)); gl[0] |= 1; G = Int::from_limbs(gl.data(), gl.size()); }
+  Int A = Int::from_limbs(al.data(), n), B = Int::from_limbs(bl.data(), n); A = A - ref::tmod(A, G); B = B - ref::tmod(B, G);   // round down to multiples of G: touches only the lowest limbs
+  if (A.is_zero() || B.is_zero()) return;
+  ci.label("huge_hgcd_reduce"); ci.nontrivial = true; ci.d("huge gcd/gcdext n=%zu style=%u ", n, st); DESC(ci, "a=" + show(A, 64) + " b=" + show(B, 64) + " planted G=" + show(G, 64));
+  Z a, b, g, g2, s, t; mpz_from_int(a, A); mpz_from_int(b, B); if (in.flag()) { mpz_gcdext(g2, s, t, a, b); } else { mpz_gcdext(g2, s, t, b, a); mpz_swap(s, t); }
+  Int Gg = int_from_mpz(g2); certify("mpz_gcdext(huge)", A, B, Gg, int_from_mpz(s), int_from_mpz(t)); REQUIRE(ref::tmod(Gg, G).is_zero(), "mpz_gcdext(huge): g is not a multiple of the planted common factor");
+  if (in.flag()) mpz_gcd(g, a, b); else mpz_gcd(g, b, a); REQUIRE_WF(g, "mpz_gcd"); REQUIRE(int_from_mpz(g) == Gg, "mpz_gcd(huge, n=%zu): differs from the gcd certified by cofactors", n);
+}
 static void check(ByteSource& in, CaseInfo& ci) {
+  if (in.scale >= 90 && (in.u8() ^ 0xA5u) < 4 && in.chance(128)) { case_huge(in, ci); return; }   // ~1 in 128 of the top size classes; never for an exhausted (all-zero) stream
   switch (in.pick({8, 2, 3, 5, 6})) { case 0: case_mpz_gcd(in, ci); break; case 1: case_ui(in, ci); break; case 2: case_invert(in, ci); break; case 3: case_mpn(in, ci); break; default: case_kron(in, ci); break; }
 }
 namespace eng {
 PropDef g_prop = {"C07",
-  "Cases: mpz_gcd / mpz_gcdext (incl. t=NULL, outputs aliasing inputs) / mpz_lcm / mpz_gcd_ui / mpz_lcm_ui / mpz_invert (|m|>1, both signs, a outside [0,|m|)) / mpn_gcd (s2 odd, s1 >= s2 in bits, copies passed) / mpn_gcdext (U>=V>0, xn+1 limb areas) / mpn_gcd_1 / mpz_jacobi (=kronecker), mpz_legendre (odd primes), the four mixed kronecker entry points (all sign and parity combinations, b=0,+-1,+-2, 2-adic valuations crossing limbs). Operand pairs: g*(x,y) with (x,y) coprime built backwards from a chosen quotient sequence (mixed sizes, runs of 1 = Fibonacci-like, one huge partial quotient), planted g (1, 2^k, multi-limb), random pairs of different sizes, a=b, b|a, |b|=2g, zero operands, neighbours; sizes around HGCD/GCDEXT_DC/GCD_DC thresholds up to the scale cap. Oracle: refint: g>=0, g|a, g|b, a*s+b*t=g (certificate), the manual's cofactor bounds and exceptional cases, lcm=|ab|/g, inverse in [0,|m|) with a*r=1 mod m, textbook Kronecker recursion; gcd of large random pairs is taken from a refint-verified certificate. Non-trivial: both operands >= 2 limbs. Distinct = hash of all decoded choices.",
-  check, nullptr, {"a_eq_b", "b_divides_a", "b_eq_2g", "fib_like", "huge_partial_quotient", "above_hgcd_threshold", "above_gcd_dc_threshold", "rule:|a|=|b|", "rule:s=sgn(a)", "rule:t=sgn(b)", "kron:b_even", "kron:b_negative", "kron:b_zero", "kron:zero", "invert:none", "planted_big_g"}, nullptr, sweep_count, sweep_item,
-  "every (a,b) in [-64,64]^2: mpz_gcd, mpz_gcdext (certificate, cofactor bounds and all exceptional cases of the manual), mpz_lcm, mpz_gcd_ui/lcm_ui (b>=0), mpz_invert (|b|>1), mpz_jacobi/kronecker and the four mixed kronecker entry points, mpz_legendre for odd prime b, mpn_gcd_1"};
+  "Cases: mpz_gcd / mpz_gcdext (incl. t=NULL, outputs aliasing inputs) / mpz_lcm / mpz_gcd_ui / mpz_lcm_ui / mpz_invert (|m|>1, both signs, a outside [0,|m|)) / mpn_gcd (s2 odd, s1 >= s2 in bits, copies passed) / mpn_gcdext (U>=V>0, xn+1 limb areas) / mpn_gcd_1 / mpz_jacobi (=kronecker), mpz_legendre (odd primes), the four mixed kronecker entry points (all sign and parity combinations, b=0,+-1,+-2, 2-adic valuations crossing limbs). Operand pairs: g*(x,y) with (x,y) coprime built backwards from a chosen quotient sequence (mixed sizes, runs of 1 = Fibonacci-like, one huge partial quotient), planted g (1, 2^k, multi-limb), random pairs of different sizes, a=b, b|a, |b|=2g, zero operands, neighbours, pairs congruent modulo B^j (equal low limbs); a rare class (~1 in 1300 cases) of 13800..30000-limb operands (hgcd_reduce regime) with long all-ones runs; sizes around HGCD/GCDEXT_DC/GCD_DC thresholds up to the scale cap. Oracle: refint: g>=0, g|a, g|b, a*s+b*t=g (certificate), the manual's cofactor bounds and exceptional cases, lcm=|ab|/g, inverse in [0,|m|) with a*r=1 mod m, textbook Kronecker recursion; gcd of large random pairs is taken from a refint-verified certificate. Non-trivial: both operands >= 2 limbs. Distinct = hash of all decoded choices.",
+  check, nullptr, {"a_eq_b", "b_divides_a", "b_eq_2g", "fib_like", "huge_partial_quotient", "above_hgcd_threshold", "above_gcd_dc_threshold", "rule:|a|=|b|", "rule:s=sgn(a)", "rule:t=sgn(b)", "kron:b_even", "kron:b_negative", "kron:b_zero", "kron:zero", "invert:none", "planted_big_g", "equal_low_limbs", "huge_hgcd_reduce"}, nullptr, sweep_count, sweep_item,
+  "every (a,b) in [-64,64]^2: mpz_gcd, mpz_gcdext (certificate, cofactor bounds and all exceptional cases of the manual), mpz_lcm, mpz_gcd_ui/lcm_ui (b>=0), mpz_invert (|b|>1), mpz_jacobi/kronecker and the four mixed kronecker entry points, mpz_legendre for odd prime b, mpn_gcd_1; plus every pair of two-limb values with limbs from a 12-value palette {0,1,2,3,5,7,2^63,2^63+1,2^64-1,2^64-3,2^32,0xaaa..ab} (20736 pairs x 4 sign combinations): mpz_jacobi, mpz_gcd, mpz_gcdext, mpz_invert"};
 }
